@@ -566,7 +566,12 @@ impl Swift {
         match e {
             RustEnum::Unit(shared) => {
                 for v in &shared.variants {
-                    let variant_name = v.shared().id.original.to_camel_case();
+                    let mut variant_name = v.shared().id.original.to_camel_case();
+                    if variant_name.starts_with(|c: char| c.is_ascii_digit()) {
+                        // `_2FA` loses its underscore in camel case: a case name cannot start
+                        // with a digit (the same is done for algebraic enums below)
+                        variant_name = format!("_{}", variant_name);
+                    }
 
                     self.write_comments(w, 1, &v.shared().comments)?;
                     if v.shared().id.renamed == variant_name {
